@@ -7,7 +7,9 @@ HOME = '/home/u'
 TI = '[Trash Info]\nPath=%s\nDeletionDate=%s\n'
 
 NAME_POOL = ['a', 'b', 'c', 'foo', 'foobar', 'A', 'a b', 'x%y', 'n\nl', '-r', 'é', '€uro', 'a*', '[a]', 'q?', 'a.trashinfo',
-             '.hidden', 'foo.txt', 'Foo', 'x+y', 'tab\tx', 'per%41', '~t', 'a=b', '#h', '...', '....', '.bashrc', 'report ', ' lead', 'end\t']
+             '.hidden', 'foo.txt', 'Foo', 'x+y', 'tab\tx', 'per%41', '~t', 'a=b', '#h', '...', '....', '.bashrc', 'report ', ' lead', 'end\t',
+             # names a well-meaning normalisation would change: a literal tilde, Unicode that is not in normal form C
+             '~', 'cafe\u0301', '\u212bngstrom']
 DIR_POOL = ['', 'd', 'd/e', 'foo', 'a', 'deep/er/still', 'sp ace', 'é']
 DATES = ['2024-01-01T00:00:00', '2023-12-31T23:59:59', '2000-02-29T12:00:00', '1999-12-31T00:00:00', '2024-03-01T10:20:30',
          '2030-01-01T00:00:00', '2024-01-01T00:00:01', '2023-06-15T08:09:10']
@@ -351,7 +353,7 @@ def victims(rng, lay, n=None):
         elif kind == 'e':
             nodes.append(['f', full, ''])
         elif kind == 'd':
-            nodes += [['d', full, rng.choice([0o755, 0o700])], ['f', full + '/in', 'in%d' % k], ['d', full + '/s', 0o755],
+            nodes += [['d', full, rng.choice([0o755, 0o700, 0o555, 0o500])], ['f', full + '/in', 'in%d' % k], ['d', full + '/s', 0o755],
                       ['l', full + '/s/lnk', '/canary/file'], ['f', full + '/s/t', 't']]
         elif kind == 'lf':
             nodes.append(['l', full, '/canary/file'])
